@@ -125,7 +125,7 @@ theorem source_Verify_refines_model_c12 (env : EnvV) (v : VerifierV) (desc : oci
   have hg : sourceGuards.vVerifyDocNil = true := by decide
   cases hst : stmtOf v opts <;> simp only [hst] at h
   · rw [h]; simp [modelObs, vVerify, hg, viewObs, failNoOutcome]
-  · rw [h]; simp [modelObs, vVerify, verifyWithStmt, viewObs, failNoOutcome]
+  · rw [h]; simp [modelObs, vVerify, verifyWithStmt, revStep, revFails, viewObs, failNoOutcome]
   · -- skip: the function accepts
     have hacc : (viewV (Verify env v desc signature opts)).1 = true := by
       unfold stmtOf at hst
@@ -144,7 +144,7 @@ theorem source_Verify_refines_model_c12 (env : EnvV) (v : VerifierV) (desc : oci
       apply Prod.ext
       · exact hacc
       · rw [h, hacc]; rfl
-    rw [hv]; simp [modelObs, vVerify, verifyWithStmt, viewObs, okWith]
+    rw [hv]; simp [modelObs, vVerify, verifyWithStmt, revStep, revFails, viewObs, okWith]
   · -- enforce: consistent, verdict as returned
     have hv : viewV (Verify env v desc signature opts) =
         ((Verify env v desc signature opts).2.isNone, some (!(Verify env v desc signature opts).2.isNone)) := by
@@ -153,7 +153,7 @@ theorem source_Verify_refines_model_c12 (env : EnvV) (v : VerifierV) (desc : oci
       · rw [h]; rfl
     rw [hv]
     cases (Verify env v desc signature opts).2.isNone <;>
-      simp [modelObs, vVerify, verifyWithStmt, viewObs, okWith, failWith]
+      simp [modelObs, vVerify, verifyWithStmt, revStep, revFails, viewObs, okWith, failWith]
 
 /-! ### the same discipline for the translated `(*verifier).VerifyBlob` (`Generated/SrcVerifyBlobV.lean`) -/
 section Blob
